@@ -244,10 +244,24 @@ needle_has (const unsigned char *w)
 
 /* Build the needle set for phrase p[0..n): every 8-byte window in the
    encodings the algorithms use.  */
+static unsigned char xneedle_buf[256];
+static size_t xneedle_len;      /* key material derived from the phrase (HMAC's digest of an over-long key), one call */
+
+static void needles_add_bytes (const unsigned char *p, size_t n);
+
 static void
 needles_for_phrase (const unsigned char *p, size_t n)
 {
   needle_clear ();
+  needles_add_bytes (p, n);
+  /* derived keys: 20- and 32-byte pieces, each in all encodings */
+  for (size_t o = 0; o + 20 <= xneedle_len; o += 32)
+    needles_add_bytes (xneedle_buf + o, xneedle_len - o < 32 ? xneedle_len - o : 32);
+}
+
+static void
+needles_add_bytes (const unsigned char *p, size_t n)
+{
   if (n < 8) return;
   unsigned char w[8];
   for (size_t i = 0; i + 8 <= n; i++)
@@ -1124,6 +1138,7 @@ register_static_skips (void)
 {
   static_skip (needle_tab, sizeof needle_tab);
   static_skip (needle_used, sizeof needle_used);
+  static_skip (xneedle_buf, sizeof xneedle_buf);
   static_skip (ucs_first6, sizeof ucs_first6);
   static_skip (snap, sizeof snap);
   static_skip (mtitems, sizeof mtitems);
@@ -1152,6 +1167,12 @@ now_ns (void)
   struct timespec ts;
   clock_gettime (CLOCK_MONOTONIC, &ts);
   return (uint64_t) ts.tv_sec * 1000000000ull + (uint64_t) ts.tv_nsec;
+}
+
+static int
+cmp_strp (const void *a, const void *b)
+{
+  return strcmp (*(char *const *) a, *(char *const *) b);
 }
 
 static void *
@@ -1226,7 +1247,9 @@ mt_thread (void *arg)
             snprintf (t->firstbad, sizeof t->firstbad, "item=%d ep=%d got=%.100s", idx, ep, res ? res : "(null)");
           t->mism++;
         }
-      if (t->nlog < t->iters) t->log[t->nlog++] = (struct mtlog) { t0, t1, idx, ep, 0 };
+      /* salts drawn from the operating system are kept: judged for repeats after the threads have finished */
+      if (t->nlog < t->iters)
+        t->log[t->nlog++] = (struct mtlog) { t0, t1, idx, ep, (it->os_entropy && res && !mt_static_api) ? strdup (res) : 0 };
       free (tofree);
     }
   free (ra);
@@ -1345,6 +1368,48 @@ cmd_mt (int argc, char **argv)
       if (th[i].mism && !first[0]) snprintf (first, sizeof first, "%s", th[i].firstbad);
       mism += th[i].mism; calls += th[i].calls;
     }
+  /* salts from the operating system's generator: a call run alone returns fresh bytes, so two calls returning
+     the same salt, or a salt that is one repeated character, is not "what it would return if run alone"
+     (methods with fewer than 48 salt bits are left out: repeats are expected there) */
+  long os_salts = 0, os_dups = 0, os_flat = 0;
+  char osfirst[200] = "";
+  if (!mt_cold)
+    {
+      size_t cap = 0;
+      for (int i = 0; i < nt; i++) cap += (size_t) th[i].nlog;
+      char **all = calloc (cap + 1, sizeof *all);
+      for (int i = 0; i < nt; i++)
+        for (int j = 0; j < th[i].nlog; j++)
+          {
+            struct mtlog *l = &th[i].log[j];
+            if (!l->res) continue;
+            const char *pre = mtitems[l->item].prefix;
+            size_t pl = pre ? strlen (pre) : 0;
+            if (pl >= 2 && pre[0] == '$' && strlen (l->res) >= pl + 8)
+              {
+                const char *tail = strrchr (l->res, '$');
+                tail = (tail && tail[1]) ? tail + 1 : l->res + strlen (l->res) - 8;
+                if (strlen (tail) >= 8 && strspn (tail, (char[]) { tail[0], 0 }) == strlen (tail))
+                  {
+                    os_flat++;
+                    if (!osfirst[0]) snprintf (osfirst, sizeof osfirst, "flat salt %.150s", l->res);
+                  }
+                all[os_salts++] = l->res;
+              }
+            else free (l->res);
+            l->res = 0;
+          }
+      qsort (all, (size_t) os_salts, sizeof *all, cmp_strp);
+      for (long k = 1; k < os_salts; k++)
+        if (!strcmp (all[k], all[k - 1]))
+          {
+            os_dups++;
+            if (!osfirst[0]) snprintf (osfirst, sizeof osfirst, "same salt twice %.150s", all[k]);
+          }
+      for (long k = 0; k < os_salts; k++) free (all[k]);
+      free (all);
+      if ((os_dups || os_flat) && !first[0]) snprintf (first, sizeof first, "%s", osfirst);
+    }
   /* measured concurrency: cross-thread call pairs whose intervals overlapped */
   long overlaps = 0;
   static unsigned char pairseen[64][64];
@@ -1366,7 +1431,7 @@ cmd_mt (int argc, char **argv)
               }
           }
       }
-  out_printf ("ok calls=%ld mism=%ld overlaps=%ld mpairs=%ld", calls, mism, overlaps, distinct_pairs);
+  out_printf ("ok calls=%ld mism=%ld overlaps=%ld mpairs=%ld ossalts=%ld osdups=%ld osflat=%ld", calls, mism, overlaps, distinct_pairs, os_salts, os_dups, os_flat);
   if (first[0]) out_hex ("first", first, strlen (first));
   for (int i = 0; i < nt; i++) free (th[i].log);
   free (th);
@@ -1642,6 +1707,19 @@ handle (char *line)
   else if (!strcmp (c, "mtcold") && argc >= 2)
     {
       mt_cold = atoi (argv[1]);
+      out_printf ("ok");
+    }
+  else if (!strcmp (c, "xneedle") && argc >= 2)
+    {
+      /* xneedle <hex|-> : derived key material to look for after the following crypt calls (32-byte slots) */
+      xneedle_len = 0;
+      if (strcmp (argv[1], "-"))
+        {
+          unsigned char *b = 0;
+          long n = hexdecode (argv[1], &b);
+          if (b && n > 0 && (size_t) n <= sizeof xneedle_buf) { memcpy (xneedle_buf, b, (size_t) n); xneedle_len = (size_t) n; }
+          free (b);
+        }
       out_printf ("ok");
     }
   else if (!strcmp (c, "mtadd")) cmd_mtadd (argc, argv);
